@@ -6,7 +6,12 @@
    recreations on a fresh server with configuration c (always-remux flag, CDN secret, the path manager's admission
    `auth` and `nostream` as arbitrary functions). `OPass` = the media request was handed to the muxer (HTTP 200/404 of
    the muxer), anything else = it was refused (401) or failed (500).
-   `backed c pre p id u ip`  = pre contains a non-CDN multivariant request for path p from client IP ip, with
+   Every request carries `n : netreq` = what is on the wire about its origin: the IP of the TCP peer and the values of
+   its forwarding headers (X-Forwarded-For, X-Real-Ip, CF-Connecting-IP, ...). `cip c n` = gin's ClientIP() under the
+   engine httpServer.initialize builds (SetTrustedProxies(hlsTrustedProxies) ALWAYS, also for the default empty list):
+   the peer's IP, unless the peer is inside one of the configured trusted networks, in which case the rightmost item
+   of X-Forwarded-For (else X-Real-Ip) that is not itself a trusted proxy.
+   `backed c pre p id u ip`  = pre contains a non-CDN multivariant request for path p whose client IP (cip) is ip, with
    cookieCheck=1, admitted by auth, that created session id with secret u, and no later event of pre ended that
    session (kick of id, expiry of id, close / effective path-not-ready / instance crash of the muxer of p).
    `cdn_backed c pre p id`   = the same for a CDN session created by a multivariant request carrying the CDN secret.
@@ -21,10 +26,10 @@ Local Open Scope Z_scope.
    - it carries the (non-empty) CDN secret and a live CDN session of p exists, created by a request with that secret; or
    - the secret it presents (cookie if the request has the cookie at all, else query) parses to the secret of a live
      session created for THAT path by an admitted multivariant request from the SAME client IP. *)
-Theorem C43_served_only_if : forall c ops pre post p ip hdr ck q,
-  exec c init ops = pre ++ (Media p ip hdr ck q, OPass) :: post ->
+Theorem C43_served_only_if : forall c ops pre post p n hdr ck q,
+  exec c init ops = pre ++ (Media p n hdr ck q, OPass) :: post ->
   (is_cdn c hdr = true /\ exists id, cdn_backed c pre p id) \/
-  (is_cdn c hdr = false /\ exists id u, uuid_parse (effective ck q) = Some u /\ backed c pre p id u ip).
+  (is_cdn c hdr = false /\ exists id u, uuid_parse (effective ck q) = Some u /\ backed c pre p id u (cip c n)).
 Proof. exact served_only_if. Qed.
 Print Assumptions C43_served_only_if.
 
@@ -48,11 +53,11 @@ Proof. exact cookie_shadows_query. Qed.
 Print Assumptions C43_cookie_shadows_query.
 
 (* a secret that was only ever issued on other paths never opens path p (even if the random secrets collide) *)
-Theorem C43_no_cross_path : forall c ops pre post p ip hdr ck q x,
-  exec c init ops = pre ++ (Media p ip hdr ck q, x) :: post ->
+Theorem C43_no_cross_path : forall c ops pre post p n hdr ck q x,
+  exec c init ops = pre ++ (Media p n hdr ck q, x) :: post ->
   is_cdn c hdr = false ->
-  (forall p' cred ip' hdr' ccq ccc sec vc id,
-     In (Multi p' cred ip' hdr' ccq ccc sec, OCreated vc id) pre ->
+  (forall p' cred n' hdr' ccq ccc sec vc id,
+     In (Multi p' cred n' hdr' ccq ccc sec, OCreated vc id) pre ->
      uuid_parse (effective ck q) = Some sec -> p' <> p) ->
   x <> OPass.
 Proof. exact no_cross_path. Qed.
@@ -60,19 +65,20 @@ Print Assumptions C43_no_cross_path.
 
 (* if every session of p created from this IP with this secret has since been kicked / expired / lost its muxer,
    the request is not served *)
-Theorem C43_closed_sessions_dead : forall c ops pre post p ip hdr ck q x,
-  exec c init ops = pre ++ (Media p ip hdr ck q, x) :: post ->
+Theorem C43_closed_sessions_dead : forall c ops pre post p n hdr ck q x,
+  exec c init ops = pre ++ (Media p n hdr ck q, x) :: post ->
   is_cdn c hdr = false ->
-  (forall pre1 mid cred hdr' ccc vc id u,
-     pre = pre1 ++ (Multi p cred ip hdr' true ccc u, OCreated vc id) :: mid ->
+  (forall pre1 mid cred n' hdr' ccc vc id u,
+     pre = pre1 ++ (Multi p cred n' hdr' true ccc u, OCreated vc id) :: mid ->
+     cip c n' = cip c n ->
      uuid_parse (effective ck q) = Some u ->
      exists e, In e mid /\ kills p id e = true) ->
   x <> OPass.
 Proof. exact closed_sessions_dead. Qed.
 Print Assumptions C43_closed_sessions_dead.
 
-Theorem C43_cdn_closed_sessions_dead : forall c ops pre post p ip hdr ck q x,
-  exec c init ops = pre ++ (Media p ip hdr ck q, x) :: post ->
+Theorem C43_cdn_closed_sessions_dead : forall c ops pre post p n hdr ck q x,
+  exec c init ops = pre ++ (Media p n hdr ck q, x) :: post ->
   is_cdn c hdr = true ->
   (forall pre1 mid cred ip' hdr' ccq ccc sec id,
      pre = pre1 ++ (Multi p cred ip' hdr' ccq ccc sec, OCdnCreated id) :: mid ->
@@ -83,11 +89,76 @@ Print Assumptions C43_cdn_closed_sessions_dead.
 
 (* a (non-CDN) session is only ever created for a client the path manager admitted, after the cookie-check round,
    on a path that has a stream; the secret goes into a cookie iff the cookie check cookie came back *)
-Theorem C43_created_only_if : forall c ops pre post p cred ip hdr ccq ccc sec vc id,
-  exec c init ops = pre ++ (Multi p cred ip hdr ccq ccc sec, OCreated vc id) :: post ->
-  is_cdn c hdr = false /\ ccq = true /\ auth c p cred ip = true /\ nostream c p = false /\ vc = ccc.
+Theorem C43_created_only_if : forall c ops pre post p cred n hdr ccq ccc sec vc id,
+  exec c init ops = pre ++ (Multi p cred n hdr ccq ccc sec, OCreated vc id) :: post ->
+  is_cdn c hdr = false /\ ccq = true /\ auth c p cred (cip c n) = true /\ nostream c p = false /\ vc = ccc.
 Proof. exact created_only_if. Qed.
 Print Assumptions C43_created_only_if.
+
+(* ---- which IP is "the IP of the request" ------------------------------------------------------------------ *)
+
+(* With the DEFAULT configuration (hlsTrustedProxies empty) the IP of a request is the IP of its TCP peer, whatever
+   headers it carries ... *)
+Theorem C43_no_trusted_proxies : forall c n, trusted c = [] -> cip c n = peer_text n.
+Proof. exact cip_no_trusted_proxies. Qed.
+Print Assumptions C43_no_trusted_proxies.
+
+(* ... hence a served media request and the admitted request that created its session came from the same peer IP *)
+Theorem C43_served_same_peer_default : forall c ops pre post p n hdr ck q,
+  trusted c = [] ->
+  exec c init ops = pre ++ (Media p n hdr ck q, OPass) :: post ->
+  is_cdn c hdr = false ->
+  exists pre1 mid cred n0 hdr0 ccc vc id u,
+    pre = pre1 ++ (Multi p cred n0 hdr0 true ccc u, OCreated vc id) :: mid /\
+    peer_text n0 = peer_text n /\ uuid_parse (effective ck q) = Some u /\
+    is_cdn c hdr0 = false /\ auth c p cred (peer_text n0) = true /\
+    Forall (fun e => kills p id e = false) mid.
+Proof. exact served_same_peer_default. Qed.
+Print Assumptions C43_served_same_peer_default.
+
+(* In ANY configuration: a peer outside the trusted networks cannot influence anything through forwarding headers
+   (X-Forwarded-For, X-Real-Ip, CF-Connecting-IP, X-Appengine-Remote-Addr, ... : the whole header list is arbitrary):
+   same outcome and same next state for multivariant and media requests *)
+Theorem C43_forged_headers_irrelevant : forall c st peer hs hs',
+  untrusted_peer c {| n_peer := peer; n_hdrs := hs |} ->
+  (forall p cred hdr ccq ccc sec,
+     step c st (Multi p cred {| n_peer := peer; n_hdrs := hs |} hdr ccq ccc sec) =
+     step c st (Multi p cred {| n_peer := peer; n_hdrs := hs' |} hdr ccq ccc sec)) /\
+  (forall p hdr ck q,
+     step c st (Media p {| n_peer := peer; n_hdrs := hs |} hdr ck q) =
+     step c st (Media p {| n_peer := peer; n_hdrs := hs' |} hdr ck q)).
+Proof. exact forged_headers_irrelevant. Qed.
+Print Assumptions C43_forged_headers_irrelevant.
+
+Theorem C43_served_untrusted_peer : forall c ops pre post p n hdr ck q,
+  untrusted_peer c n ->
+  exec c init ops = pre ++ (Media p n hdr ck q, OPass) :: post ->
+  is_cdn c hdr = false ->
+  exists id u, uuid_parse (effective ck q) = Some u /\ backed c pre p id u (peer_text n).
+Proof. exact served_untrusted_peer. Qed.
+Print Assumptions C43_served_untrusted_peer.
+
+(* the IP of a request is its peer's, or - only if the peer is a trusted proxy - an item of X-Forwarded-For or X-Real-Ip
+   that parses as an IP; no other header is ever used *)
+Theorem C43_client_ip_cases : forall c n txt a,
+  n_peer n = Some (txt, a) ->
+  cip c n = txt \/
+  (is_trusted (trusted c) a = true /\
+   exists h, (h = h_xff \/ h = h_xreal) /\ In (cip c n) (items (hdr_val n h)) /\ parse_ip c (cip c n) <> None).
+Proof. exact cip_cases. Qed.
+Print Assumptions C43_client_ip_cases.
+
+(* behind honest trusted proxies the IP of the request IS the client's: the client (address ca, written ct, NOT in a
+   trusted network) sends any X-Forwarded-For x0 it likes; each proxy on the way appends the IP of its peer
+   (chain_xff); all proxies are in trusted networks *)
+Theorem C43_client_ip_honest_chain : forall c n x0 ct ca ps pt pa,
+  n_peer n = Some (pt, pa) -> is_trusted (trusted c) pa = true ->
+  hdr_val n h_xff = chain_xff x0 (ct :: map fst ps) ->
+  clean ct = true -> parse_ip c ct = Some ca -> is_trusted (trusted c) ca = false ->
+  Forall (fun e => clean (fst e) = true /\ parse_ip c (fst e) = Some (snd e) /\ is_trusted (trusted c) (snd e) = true) ps ->
+  cip c n = ct.
+Proof. exact cip_honest_chain. Qed.
+Print Assumptions C43_client_ip_honest_chain.
 
 (* what "the secret matches" accepts: strings of 36, 45, 38 or 32 bytes only; and these spellings of one secret are
    all equal: any letter case; "urn:uuid:" (any case) in front; ANY one byte in front and ANY one byte behind (the
@@ -127,42 +198,121 @@ Example C43_example_spellings :
   uuid_parse (103 :: tl ex_secret) = None.
 Proof. vm_compute. repeat split. Qed.
 
-(* one server, paths 0 and 1, client IPs 0 and 1; only (path 0, cred 1, ip 0) and (path 1, cred 1, ip 0) are admitted *)
+(* one server, paths 0 and 1; clients A = 10.0.0.1 and B = 10.0.0.2; 127.0.0.1 and 192.168.1.0/24 are trusted proxies;
+   only credentials 1 from A are admitted (on both paths) *)
+Definition ipA : list Z := [49;48;46;48;46;48;46;49].             (* "10.0.0.1" *)
+Definition ipB : list Z := [49;48;46;48;46;48;46;50].             (* "10.0.0.2" *)
+Definition ipP : list Z := [49;50;55;46;48;46;48;46;49].          (* "127.0.0.1" *)
+Definition ipQ : list Z := [49;57;50;46;49;54;56;46;49;46;53].    (* "192.168.1.5" *)
+Definition adA : addr := (true, 167772161).
+Definition adB : addr := (true, 167772162).
+Definition adP : addr := (true, 2130706433).
+Definition adQ : addr := (true, 3232235781).
+Definition ex_parse (t : list Z) : option addr :=
+  if bytes_eqb t ipA then Some adA else if bytes_eqb t ipB then Some adB
+  else if bytes_eqb t ipP then Some adP else if bytes_eqb t ipQ then Some adQ else None.
+Definition ex_trusted : list cidr :=
+  [ {| c_v4 := true; c_base := 2130706433; c_ones := 32 |}; {| c_v4 := true; c_base := 3232235776; c_ones := 24 |} ].
 Definition ex_conf : config :=
-  {| always := false; cdn_secret := [115]; auth := fun p cred ip => (cred =? 1) && (ip =? 0);
-     nostream := fun _ => false |}.
+  {| always := false; cdn_secret := [115]; auth := fun p cred ip => (cred =? 1) && bytes_eqb ip ipA;
+     nostream := fun _ => false; trusted := ex_trusted; parse_ip := ex_parse |}.
+Definition ex_default : config :=      (* the same server with the default hlsTrustedProxies: [] *)
+  {| always := false; cdn_secret := [115]; auth := auth ex_conf; nostream := fun _ => false; trusted := [];
+     parse_ip := ex_parse |}.
 Definition ex_other : uuid := [1;1;1;1;1;1;1;1;1;1;1;1;1;1;1;1].
 Definition ex_other_s : list Z := (* "01010101-0101-0101-0101-010101010101" *)
   [48;49;48;49;48;49;48;49;45;48;49;48;49;45;48;49;48;49;45;48;49;48;49;45;48;49;48;49;48;49;48;49;48;49;48;49].
 
+(* how requests arrive *)
+Definition fromA : netreq := {| n_peer := Some (ipA, adA); n_hdrs := [] |}.
+Definition fromB : netreq := {| n_peer := Some (ipB, adB); n_hdrs := [] |}.
+Definition forged (h : Z) (v : list Z) : netreq := {| n_peer := Some (ipB, adB); n_hdrs := [(h, v)] |}.   (* B lies *)
+Definition via_proxy (xff : list Z) : netreq := {| n_peer := Some (ipP, adP); n_hdrs := [(h_xff, xff)] |}.
+Definition sep : list Z := [44; 32].
+
+Example C43_example_client_ip :
+  cip ex_conf fromA = ipA /\ cip ex_conf (forged h_xff ipA) = ipB /\ cip ex_conf (forged h_xreal ipA) = ipB /\
+  cip ex_conf (forged 2 ipA) = ipB /\
+  cip ex_conf (via_proxy ipA) = ipA /\
+  cip ex_conf (via_proxy (ipA ++ sep ++ ipB)) = ipB /\              (* B forged "10.0.0.1", the proxy appended B *)
+  cip ex_conf (via_proxy (ipA ++ sep ++ ipQ)) = ipA /\              (* A -> proxy Q -> proxy P *)
+  cip ex_conf (via_proxy (ipB ++ sep ++ ipA ++ sep ++ ipQ)) = ipA /\
+  cip ex_conf (via_proxy (ipP ++ sep ++ ipQ)) = ipP /\              (* only proxies: the leftmost one *)
+  cip ex_conf (via_proxy [120]) = ipP /\                            (* not an IP: the peer *)
+  cip ex_conf {| n_peer := Some (ipP, adP); n_hdrs := [(h_xff, [120]); (h_xreal, ipA)] |} = ipA /\
+  cip ex_conf {| n_peer := None; n_hdrs := [(h_xff, ipA)] |} = [] /\
+  cip ex_default (forged h_xff ipA) = ipB /\ cip ex_default (via_proxy ipA) = ipP.
+Proof. vm_compute. repeat split. Qed.
+
+(* the hypotheses of C43_client_ip_honest_chain are satisfiable: B forges "10.0.0.1", goes through Q then P *)
+Example C43_example_honest_chain :
+  let n := via_proxy (chain_xff ipA (ipB :: map fst [(ipQ, adQ)])) in
+  hdr_val n h_xff = ipA ++ sep ++ ipB ++ sep ++ ipQ /\
+  is_trusted (trusted ex_conf) adP = true /\ clean ipB = true /\ parse_ip ex_conf ipB = Some adB /\
+  is_trusted (trusted ex_conf) adB = false /\
+  Forall (fun e => clean (fst e) = true /\ parse_ip ex_conf (fst e) = Some (snd e) /\
+                   is_trusted (trusted ex_conf) (snd e) = true) [(ipQ, adQ)] /\
+  cip ex_conf n = ipB.
+Proof. vm_compute. repeat split. constructor; [repeat split|constructor]. Qed.
+
+(* why initialize must call SetTrustedProxies even for an empty list: under the engine gin.New() returns (trust
+   0.0.0.0/0 and ::/0) the same forged requests would be attributed to A *)
+Definition gin_default_engine : engine :=
+  {| e_trusted := [ {| c_v4 := true; c_base := 0; c_ones := 0 |}; {| c_v4 := false; c_base := 0; c_ones := 0 |} ];
+     e_forwarded := true; e_headers := [h_xff; h_xreal]; e_platform := None |}.
+Example C43_example_gin_default_engine_spoofable :
+  client_ip gin_default_engine ex_parse (forged h_xff ipA) = ipA /\
+  client_ip gin_default_engine ex_parse (forged h_xreal ipA) = ipA /\
+  client_ip (hls_engine ex_default) ex_parse (forged h_xff ipA) = ipB.
+Proof. vm_compute. repeat split. Qed.
+
 Example C43_example_history :
   map snd (exec ex_conf init
-    [ Media 0 0 [] None ex_secret;                        (* no muxer yet *)
-      Multi 0 1 0 [] false false ex_uuid;                 (* cookie-check round first *)
-      Multi 0 0 0 [] true false ex_uuid;                  (* anonymous: not admitted *)
-      Multi 0 1 0 [] true false ex_uuid;                  (* admitted: session 0 on path 0, secret via query *)
-      Multi 1 1 0 [] true true ex_other;                  (* session 1 on path 1, secret via cookie *)
-      Media 0 0 [] None ex_secret;                        (* right secret, right IP, right path *)
-      Media 0 0 [] (Some (urn_prefix ++ ex_upper)) [];    (* another spelling, in the cookie *)
-      Media 0 1 [] None ex_secret;                        (* other IP *)
-      Media 1 0 [] None ex_secret;                        (* path 0's secret on path 1 *)
-      Media 0 0 [] None ex_other_s;                       (* path 1's secret on path 0 *)
-      Media 0 0 [] (Some ex_other_s) ex_secret;           (* cookie (wrong) hides the query (right) *)
-      Media 0 0 [] (Some ex_secret) ex_other_s;           (* cookie (right) hides the query (wrong) *)
-      Media 0 0 (bearer ++ [115]) None ex_secret;         (* CDN secret but no CDN session *)
-      Multi 0 0 1 (bearer ++ [115]) false false [];       (* CDN session 2 on path 0: no admission asked *)
-      Media 0 1 (bearer ++ [115]) None [];                (* CDN: any IP, no session secret *)
-      Media 1 1 (bearer ++ [115]) None [];                (* but not on path 1 *)
+    [ Media 0 fromA [] None ex_secret;                    (* no muxer yet *)
+      Multi 0 1 fromA [] false false ex_uuid;             (* cookie-check round first *)
+      Multi 0 0 fromA [] true false ex_uuid;              (* anonymous: not admitted *)
+      Multi 0 1 fromA [] true false ex_uuid;              (* admitted: session 0 on path 0, secret via query *)
+      Multi 1 1 fromA [] true true ex_other;              (* session 1 on path 1, secret via cookie *)
+      Media 0 fromA [] None ex_secret;                    (* right secret, right IP, right path *)
+      Media 0 fromA [] (Some (urn_prefix ++ ex_upper)) [];  (* another spelling, in the cookie *)
+      Media 0 fromB [] None ex_secret;                    (* other IP *)
+      Media 0 (forged h_xff ipA) [] None ex_secret;       (* other IP claiming to be A: X-Forwarded-For *)
+      Media 0 (forged h_xreal ipA) [] None ex_secret;     (* ... X-Real-Ip *)
+      Media 0 (forged 2 ipA) [] None ex_secret;           (* ... CF-Connecting-IP *)
+      Media 0 (via_proxy ipA) [] None ex_secret;          (* A through the trusted proxy *)
+      Media 0 (via_proxy (ipA ++ sep ++ ipB)) [] None ex_secret;   (* B through the proxy with a forged X-Forwarded-For *)
+      Multi 0 1 (forged h_xff ipA) [] true false ex_other;  (* B (not admitted) claiming to be A *)
+      Media 1 fromA [] None ex_secret;                    (* path 0's secret on path 1 *)
+      Media 0 fromA [] None ex_other_s;                   (* path 1's secret on path 0 *)
+      Media 0 fromA [] (Some ex_other_s) ex_secret;       (* cookie (wrong) hides the query (right) *)
+      Media 0 fromA [] (Some ex_secret) ex_other_s;       (* cookie (right) hides the query (wrong) *)
+      Media 0 fromA (bearer ++ [115]) None ex_secret;     (* CDN secret but no CDN session *)
+      Multi 0 0 fromB (bearer ++ [115]) false false [];   (* CDN session 2 on path 0: no admission asked *)
+      Media 0 fromB (bearer ++ [115]) None [];            (* CDN: any IP, no session secret *)
+      Media 1 fromB (bearer ++ [115]) None [];            (* but not on path 1 *)
       Kick 0;
-      Media 0 0 [] None ex_secret;                        (* kicked *)
-      Media 1 0 [] (Some ex_other_s) [];                  (* session 1 still lives *)
+      Media 0 fromA [] None ex_secret;                    (* kicked *)
+      Media 1 fromA [] (Some ex_other_s) [];              (* session 1 still lives *)
       Expire [1; 2];
-      Media 1 0 [] (Some ex_other_s) [];
-      Media 0 1 (bearer ++ [115]) None [];
-      Multi 1 1 0 [] true false ex_uuid;                  (* session 3 on path 1 *)
+      Media 1 fromA [] (Some ex_other_s) [];
+      Media 0 fromB (bearer ++ [115]) None [];
+      Multi 1 1 fromA [] true false ex_uuid;              (* session 3 on path 1 *)
       MuxClose 1;
-      Media 1 0 [] None ex_secret ])
+      Media 1 fromA [] None ex_secret ])
   = [ OUnauth; ORedirect; OUnauth; OCreated false 0; OCreated true 1; OPass; OPass; OUnauth; OUnauth; OUnauth; OUnauth;
+      OPass; OUnauth; OUnauth; OUnauth; OUnauth; OUnauth;
       OPass; OUnauth; OCdnCreated 2; OPass; OUnauth; OKicked true; OUnauth; OPass; ONone; OUnauth; OUnauth;
       OCreated false 3; OClosed true; OUnauth ].
+Proof. vm_compute. reflexivity. Qed.
+
+(* the default configuration: forwarding headers never count *)
+Example C43_example_default_config :
+  map snd (exec ex_default init
+    [ Multi 0 1 fromA [] true false ex_uuid;
+      Media 0 fromA [] None ex_secret;
+      Media 0 (forged h_xff ipA) [] None ex_secret;
+      Media 0 (forged h_xreal ipA) [] None ex_secret;
+      Media 0 (via_proxy ipA) [] None ex_secret;          (* 127.0.0.1 is just another client here *)
+      Multi 0 1 (forged h_xff ipA) [] true false ex_other ])
+  = [ OCreated false 0; OPass; OUnauth; OUnauth; OUnauth; OUnauth ].
 Proof. vm_compute. reflexivity. Qed.
